@@ -303,6 +303,17 @@ func main() {
 		e1events(pos[1], pos[2])
 	case "callees":
 		calleeInventory(pos[1])
+	case "mutgen":
+		// mutgen <out.json> <seed> <per-operator sample size>: candidate edits only (tools/mutsweep.py runs them)
+		var seed int64 = 1
+		per := 0
+		if len(pos) > 2 {
+			fmt.Sscanf(pos[2], "%d", &seed)
+		}
+		if len(pos) > 3 {
+			fmt.Sscanf(pos[3], "%d", &per)
+		}
+		mutgen(pos[1], seed, per)
 	case "selftest":
 		os.Exit(selftest(pos))
 	default:
